@@ -148,6 +148,81 @@ def run_replay(witness_path, timeout=60):
         return {"outcome": "error", "confirmed": None, "detail": (p.stdout + p.stderr)[-600:]}
 
 
+def _child(conn, kind, idx, tier):
+    try:
+        conn.send(_worker(kind, idx, tier))
+    except Exception:  # noqa
+        try:
+            conn.send(("crash", kind, idx, traceback.format_exc()))
+        except Exception:  # noqa
+            pass
+    finally:
+        conn.close()
+
+
+def run_tasks(tasks, tier, jobs, limit_s, api):
+    """one forked process per proof task, at most `jobs` at a time, each under a hard wall-clock
+    limit (a solver call that overruns its own budget cannot wedge the check: the task is killed and
+    its obligations are reported undecided)"""
+    ctxmp = multiprocessing.get_context("fork")
+    pending = list(tasks)
+    running = []
+    results, crashes, timed_out = [], [], []
+    while pending or running:
+        while pending and len(running) < jobs:
+            kind, idx = pending.pop(0)
+            parent, child = ctxmp.Pipe(duplex=False)
+            p = ctxmp.Process(target=_child, args=(child, kind, idx, tier), daemon=True)
+            p.start()
+            child.close()
+            running.append((p, parent, kind, idx, time.time()))
+        still = []
+        for p, conn, kind, idx, t0 in running:
+            got = None
+            if conn.poll(0.02):
+                try:
+                    got = conn.recv()
+                except EOFError:
+                    got = ("crash", kind, idx, "worker died without a result (exit code %s)" % p.exitcode)
+            elif not p.is_alive():
+                if conn.poll(0.2):
+                    try:
+                        got = conn.recv()
+                    except EOFError:
+                        got = ("crash", kind, idx, "worker died (exit code %s)" % p.exitcode)
+                else:
+                    got = ("crash", kind, idx, "worker died without a result (exit code %s)" % p.exitcode)
+            elif time.time() - t0 > limit_s:
+                p.kill()
+                got = ("timeout", kind, idx, None)
+            if got is None:
+                still.append((p, conn, kind, idx, t0))
+                continue
+            p.join(1)
+            st = got[0]
+            if st == "ok":
+                results.append(got[3])
+            elif st == "timeout":
+                timed_out.append((kind, idx))
+            else:
+                crashes.append(got[3])
+        running = still
+        if running and not pending:
+            time.sleep(0.05)
+    from .verify import TaskResult
+    for kind, idx in timed_out:
+        if kind == "contract":
+            label = api.REGISTRY[idx].label
+        elif kind == "lemma":
+            label = "%s/lemma:%s" % (api.LEMMAS[idx].prop, api.LEMMAS[idx].name)
+        else:
+            label = "%s/%s" % (api.TABLES[idx][1], api.TABLES[idx][0])
+        r = TaskResult(label)
+        r.add(label + "/exec", "unknown", note="proof task exceeded its wall-clock limit of %d s and was stopped" % limit_s)
+        results.append(r)
+    return results, crashes, timed_out
+
+
 def run_script(path, timeout=120):
     """a known finding's own reproduction script against the tree under check: exit 1 = reproduces"""
     env = dict(os.environ, PYTHONPATH=REPO + os.pathsep + VERIF, PYTHONDONTWRITEBYTECODE="1")
@@ -203,20 +278,9 @@ def main(argv=None):
 
     results = []
     crashes = []
-    ctxmp = multiprocessing.get_context("fork")
-    with concurrent.futures.ProcessPoolExecutor(max_workers=min(args.jobs, len(tasks)),
-                                                mp_context=ctxmp) as ex:
-        futs = [ex.submit(_worker, kind, idx, tier) for kind, idx in tasks]
-        for f in futs:
-            try:
-                st, kind, idx, r = f.result()
-            except Exception:  # noqa
-                crashes.append(traceback.format_exc())
-                continue
-            if st == "ok":
-                results.append(r)
-            else:
-                crashes.append(r)
+    timed_out = []
+    task_limit = float(os.environ.get("PYVC_TASK_LIMIT_S", "1500" if tier == "thorough" else "420"))
+    results, crashes, timed_out = run_tasks(tasks, tier, args.jobs, task_limit, api)
 
     # ---- aggregate
     obligs = {}
@@ -260,12 +324,29 @@ def main(argv=None):
     exit_code = 0
     confirmed_violations = 0
     table_findings = {f.get("obligation"): f for f in open_findings if f.get("kind") == "table"}
+    named_findings = {}
+    for f in open_findings:
+        if f.get("kind") == "obligations":
+            for nm in f.get("obligations", []):
+                named_findings[nm] = f
+    named_confirmed = {}
     for name, o in violations:
         tf = table_findings.get(name)
         if tf is not None and str((o["witness"] or {}).get("detail")) == str(tf.get("detail")):
             out_lines.append("KNOWN-FINDING: property=%s %s" % (prop, tf.get("what")))
             kf_table_reported.append(tf.get("id"))
             continue
+        nf = named_findings.get(name)
+        if nf is not None:
+            # the finding names exactly which obligations fail and carries its own reproduction; it
+            # masks them only while that reproduction still fails on the tree under check
+            if nf["id"] not in named_confirmed:
+                named_confirmed[nf["id"]] = run_script(os.path.join(VERIF, nf["witness_script"])).get("confirmed")
+                if named_confirmed[nf["id"]]:
+                    out_lines.append("KNOWN-FINDING: property=%s %s" % (prop, nf.get("what")))
+                    kf_table_reported.append(nf.get("id"))
+            if named_confirmed[nf["id"]]:
+                continue
         safe = name.replace("/", "_").replace("#", "-").replace("[", "_").replace("]", "_")
         wpath = os.path.join(replay_dir, safe + ".json")
         w = o["witness"] or {"obligation": name, "model_complete": False}
@@ -294,7 +375,7 @@ def main(argv=None):
     # ---- known findings: replay recorded witnesses
     kf_reported = list(kf_table_reported)
     for f in open_findings:
-        if f.get("kind") == "table":
+        if f.get("kind") in ("table", "obligations"):
             continue
         rr = {"confirmed": None}
         wfile = f.get("witness_file")
